@@ -702,11 +702,17 @@ def shutdown_resets(fn):
         cn = c.get("callee") or ""
         if cn.endswith("_free") and c.get("args"):
             a = strip_casts(c["args"][0])
+            copied = False
+            if a is not None and a["k"] == "ref" and a.get("decl") == "local":
+                # `tmp = G; G = NULL; X_free (tmp);` - the object of the global released through a local copy taken before the reset
+                r = strip_casts(fn.resolve(a))
+                if r is not None and r["k"] == "ref" and r.get("decl") == "global":
+                    a, copied = r, True
             if a is not None and a["k"] == "ref" and a.get("decl") == "global":
-                rels.append((b, i, c, a["name"]))
-    for (b, i, c, g) in rels:
+                rels.append((b, i, c, a["name"], copied))
+    for (b, i, c, g, copied) in rels:
         resets = [(b2, i2) for (b2, i2, n) in fn.nodes(elsewhere=True) if n["k"] == "asg" and n.get("op") == "=" and strip_casts(n["l"])["k"] == "ref"
                   and strip_casts(n["l"])["name"] == g and cv(n["r"]) == 0]
-        if not any(fn.postdominates(b2.id, b.id) or (b2.id == b.id and i2 > i) for (b2, i2) in resets):
+        if not any(fn.postdominates(b2.id, b.id) or (b2.id == b.id and i2 > i) or (copied and fn.pos_dominates((b2.id, i2), (b.id, i))) for (b2, i2) in resets):
             bad.append((g, line(c)))
     return len(rels), bad
